@@ -97,6 +97,28 @@ pub fn run(case: &Value, _seed: u64) -> Outcome {
             }
             if Vcs::from_field("Arch", "x").is_ok() { o.v("C18", "reject_unknown", "Vcs::from_field", "mismatch", &feats, "Arch", "unknown VCS accepted".into()); }
         }
+        "Dep3OriginField" => {
+            use dep3::{Origin, OriginCategory};
+            let cat = [None, Some(OriginCategory::Backport), Some(OriginCategory::Vendor), Some(OriginCategory::Upstream), Some(OriginCategory::Other)][f[0]];
+            let t = ["abc123", "https://x.example/c/1", "1.2.3", "é"][f[2] - 1].to_string();
+            let origin = if f[1] == 1 { Origin::Commit(t) } else { Origin::Other(t) };
+            let text = format!("{}{}", cat.map(|c| format!("{}, ", c)).unwrap_or_default(), origin);
+            let doc = format!("Origin: {}\nAuthor: A\n", text);
+            o.evals += 1;
+            match guarded("dep3::lossy::PatchHeader::from_str", || dep3::lossy::PatchHeader::from_str(&doc)) {
+                Ok(Ok(h)) => {
+                    if h.origin != Some((cat, origin.clone())) { o.v("C18", "value_roundtrip", "dep3 Origin field (lossy)", "mismatch", &feats, &text, format!("parsed {:?} expected {:?}", h.origin, (cat, &origin))); }
+                    let printed = h.to_string();
+                    if !printed.contains(&format!("Origin: {}\n", text)) { o.v("C18", "text_roundtrip", "dep3 Origin field (lossy)", "mismatch", &feats, &text, format!("printed {:?}", printed)); }
+                }
+                Ok(Err(e)) => o.v("C18", "value_roundtrip", "dep3 Origin field (lossy)", "mismatch", &feats, &text, format!("rejected: {}", e)),
+                Err(m) => o.v("C18", "value_roundtrip", "dep3 Origin field (lossy)", "panic", &feats, &text, m),
+            }
+            match guarded("dep3::lossless::PatchHeader::origin", || dep3::lossless::PatchHeader::from_str(&doc).ok().and_then(|h| h.origin())) {
+                Ok(got) => if got != Some((cat, origin.clone())) { o.v("C18", "value_roundtrip", "dep3 Origin field (lossless)", "mismatch", &feats, &text, format!("parsed {:?} expected {:?}", got, (cat, &origin))); },
+                Err(m) => o.v("C18", "value_roundtrip", "dep3 Origin field (lossless)", "panic", &feats, &text, m),
+            }
+        }
         "License" => { use debian_copyright::License; let n = ["GPL-3+", "MIT"][f[1] - 1].to_string(); let t = ["one line", "two\nlines", " .\n x"][f[2] - 1].to_string();
             rt(&mut o, ty, &(match f[0] { 1 => License::Name(n), 2 => License::Text(t), _ => License::Named(n, t) }), |v| v.to_string(), &feats) }
         "Signature" => { use apt_sources::signature::Signature; let t = ["/usr/share/keyrings/x.gpg", "-----BEGIN PGP PUBLIC KEY BLOCK-----\n.\nmQ\n-----END PGP PUBLIC KEY BLOCK-----", "a\nb"][f[1] - 1];
